@@ -21,13 +21,15 @@ func execOrthoRouting(g *graph.DGraph, routes []routableEdge, params graph.Param
 			sp := startPoint(r.ns[i-1])
 			// virtual nodes have 0 size; another solution here is to consider the layer Y instead of the node Y
 			if r.ns[i-1].IsVirtual {
-				sp[1] += layerh
+				sp[1] += g.Layers[r.ns[i-1].Layer].H
 			}
-			r.Points = append(r.Points, sp)
-			r.Points = append(r.Points, [2]float64{sp[0], sp[1] + halfLayerSpacing})
-
 			ep := endPoint(r.ns[i])
-			r.Points = append(r.Points, [2]float64{ep[0], ep[1] - halfLayerSpacing})
+			// the horizontal segment runs in the middle of the space between the two layers; a node that is shorter
+			// than its layer is reached with a longer vertical segment
+			midy := ep[1] - halfLayerSpacing
+			r.Points = append(r.Points, sp)
+			r.Points = append(r.Points, [2]float64{sp[0], midy})
+			r.Points = append(r.Points, [2]float64{ep[0], midy})
 			r.Points = append(r.Points, ep)
 		}
 	}
